@@ -323,7 +323,7 @@ const c09Rule = "workloads: 1-4 shared objects (generated parsers whose nodes ca
 	"parser, ported example parsers) x 2-16 goroutines released together, each running a drawn list of ParseString / ParseBytes / " +
 	"Parse / Lex / String / LexString+drain calls on generated inputs, after a drawn sequential history of calls on the same objects; " +
 	"oracle: every result, compared after all goroutines have finished, deep-equals the result of the same call on a fresh instance " +
-	"used alone (a baseline taken before any other use for objects that cannot be re-created); the test binary is built with -race and " +
+	"used alone (a baseline taken before any other use for objects that cannot be re-created), and for generated grammars the fresh instance's verdict equals the reference parser's (a new instance does not depend on what else the process built); the test binary is built with -race and " +
 	"any DATA RACE report fails the check; non-trivial = >=4 goroutines share one object with >=2 distinct inputs; distinct by SHA-256 " +
 	"of the workload. The Go scheduler is not controlled: this is evidence about interleavings, not coverage of them."
 
